@@ -1082,6 +1082,23 @@ func (sc *c16BGV) runE2S(d *c16Deploy, ct *rlwe.Ciphertext, m []uint64, inNoise 
 			ctx.Fail("protocol", "ShareToEnc.GenShare", "GenShare failed: panic=%v %s %s err=%v", pk, site, msg, err)
 			return false
 		}
+		// smudging of the re-encryption share: e = share + crp*s_i - encode(M_i)
+		{
+			rq := params.RingQ().AtLevel(maxLevel)
+			t := rq.NewPoly()
+			rq.MulCoeffsMontgomery(crp.Value, d.sks[i].Value.Q, t)
+			enc := rq.NewPoly()
+			sc.enc.RingT2Q(maxLevel, true, secret[i].Value, enc)
+			rq.NTT(enc, enc)
+			e := rq.NewPoly()
+			e.CopyLvl(maxLevel, cs.Value)
+			rq.Add(e, t, e)
+			rq.Sub(e, enc, e)
+			rq.INTT(e, e)
+			if !d.smudge(polyCentered(rq, e), "ShareToEnc", nil) {
+				return false
+			}
+		}
 		c0[i] = &cs
 	}
 	agg2, ok := netAggregate(ctx, d.ksOps(&s2e0.KeySwitchProtocol, maxLevel), c0)
